@@ -25,6 +25,7 @@ FIELDS = {
     'Cache._norm_cased_files': MAP(STR, OPT(OBJ('BuildFileOperation'))),
     'Cache._subbuilds': MAP(HKEY, OPT(OBJ('SubbuildOperation'))),
     'Cache._created_dirs': SET(STR),
+    'Cache._built_files': SET(STR),
     'Cache._func_versions': PYV,
     'Cache._operation_versions': PYV,
     'Cache._files_lock': OBJ('Lock'),
@@ -80,7 +81,7 @@ GHOSTS = {
     'eff': None,   # (set below) log of the mutating primitives executed by the library so far
     'ncalls': IntS,                           # number of user callbacks invoked so far
     'alloc': IntS,                            # allocation clock: object o exists iff birth(o) < alloc
-    'rm_attempts': z3.ArraySort(StrS, BoolS),  # directories on which os.rmdir has been attempted
+    'rm_attempts': z3.ArraySort(StrS, BoolS),  # paths on which os.rmdir / os.remove has been attempted
     'fs_epoch': IntS,
     'cb_exc': IntS,     # identity of the exception raised by the user function called here (-1: none)
     'bd_res': IntS,     # number of outstanding output-file reservations in BuildDirs (ghost)
@@ -94,13 +95,22 @@ GHOSTS = {
 # call sites, so the content of the trace is not needed.
 GHOSTS['eff'] = IntS
 GHOSTS['mkdtemp_at'] = IntS
+# paths the library has opened for writing (the cache file): ghost of gzip.open(.., 'w*')
+GHOSTS['wopen_attempts'] = z3.ArraySort(StrS, BoolS)
 # the last query re-executed through SimpleOperationExecutor.exec (scratch ghosts: written by exec's
 # contract, read by the exit obligation of _is_simple_operation_cached, never part of a frame)
 from pyvc.sorts import PyV as _PyV
 GHOSTS['xq_n'] = IntS                     # number of exec calls so far
 GHOSTS['xq_val'] = _PyV                   # value returned by the last exec call
 GHOSTS['xq_exc'] = OPT(STR).sort()        # class name of the OSError it raised instead (or none)
-SCRATCH_GHOSTS = ('xq_n', 'xq_val', 'xq_exc')
+# outcome log of os.rename/os.replace/os.makedirs (scratch: read only by FileBackups.restore_all's
+# own postcondition, relative to its own entry state)
+GHOSTS['mv_done'] = z3.ArraySort(StrS, BoolS)      # targets of moves that succeeded
+GHOSTS['os_failed'] = z3.ArraySort(StrS, BoolS)    # paths on which makedirs / a move raised
+GHOSTS['ser'] = z3.ArraySort(ObjS, BoolS)         # records handed to Cache._operation_to_json
+GHOSTS['ne_wit'] = z3.ArraySort(StrS, StrS)       # a child seen by an rmdir that failed with ENOTEMPTY
+GHOSTS['obs_dir'] = z3.ArraySort(StrS, BoolS)      # paths for which os.path.isdir answered True
+SCRATCH_GHOSTS = ('xq_n', 'xq_val', 'xq_exc', 'mv_done', 'os_failed', 'obs_dir', 'ser', 'ne_wit')
 
 
 def log_append(lg, e):
